@@ -29,7 +29,11 @@ X0(p, ch, ce, limit) == [limit |-> limit, store |-> InitStore(p), visits |-> [t 
 SEnv(p, x) == [store |-> x.store, visits |-> x.visits, nodes |-> Titles(p),
                funcs |-> p.funcs, probes |-> Probes(p)]
 
-Out(x, o, log) == [x EXCEPT !.outs = Append(@, o), !.fcalls = @ \o log]
+\* (calls are logged; what host functions wrote through the storer meanwhile has happened)
+SLog(x, log) == IF log = <<>> THEN x
+                ELSE [x EXCEPT !.fcalls = @ \o log, !.store = EffStore(@, log, 1),
+                               !.writes = @ \o EffWriteLog(x.store, log, 1)]
+Out(x, o, log) == [SLog(x, log) EXCEPT !.outs = Append(@, o)]
 ErrOut(x, log) == Out(x, [k |-> "error"], log)
 Res(status, x) == [status |-> status, x |-> x]
 
@@ -58,24 +62,25 @@ SemBody(p, b, pc, x) ==
            LET r == EvalValue(stmt.e, env) IN
            IF r.st = "oos" THEN Res("oos", x)
            ELSE IF r.st = "err" THEN Continue(ErrOut(x, r.log))
-           ELSE LET a == Assign(stmt.op, x.store[stmt.var], r.v) IN
+           ELSE LET x1 == SLog(x, r.log)
+                    a == Assign(stmt.op, x1.store[stmt.var], r.v) IN
                 IF a.st = "oos" THEN Res("oos", x)
                 ELSE IF a.st = "err" THEN Continue(ErrOut(x, r.log))
-                ELSE Continue([x EXCEPT !.store[stmt.var] = a.v, !.fcalls = @ \o r.log,
-                                        !.writes = Append(@, [var |-> stmt.var, val |-> a.v])])
+                ELSE Continue([x1 EXCEPT !.store[stmt.var] = a.v,
+                                         !.writes = Append(@, [var |-> stmt.var, val |-> a.v])])
       [] stmt.k = "if" ->
            LET r == FirstTrue(stmt.clauses, 1, env, <<>>) IN
            IF r.st = "oos" THEN Res("oos", x)
            ELSE IF r.st = "err" THEN Continue(ErrOut(x, r.log))
-           ELSE IF r.idx = 0 THEN Continue([x EXCEPT !.fcalls = @ \o r.log])
-           ELSE LET q == SemBody(p, stmt.clauses[r.idx].body, 1, [x EXCEPT !.fcalls = @ \o r.log])
+           ELSE IF r.idx = 0 THEN Continue(SLog(x, r.log))
+           ELSE LET q == SemBody(p, stmt.clauses[r.idx].body, 1, SLog(x, r.log))
                 IN IF q.status = "normal" THEN Continue(q.x) ELSE q
       [] stmt.k = "jump" ->
            LET r == EvalValue(stmt.e, env) IN
            IF r.st = "oos" THEN Res("oos", x)
            ELSE IF r.st = "err" \/ ~IsStr(r.v) \/ r.v.s \notin Titles(p) THEN Continue(ErrOut(x, r.log))
            ELSE LET cur == p.nodes[NodeIdx(p, x.node)] IN
-                Res("jump", [x EXCEPT !.fcalls = @ \o r.log, !.target = r.v.s,
+                Res("jump", [SLog(x, r.log) EXCEPT !.target = r.v.s,
                                       !.visits = IF cur.tracking = "never" THEN @
                                                  ELSE [@ EXCEPT ![cur.title] = @ + 1]])
       [] stmt.k = "cmd" ->
@@ -83,7 +88,7 @@ SemBody(p, b, pc, x) ==
            IF r.st = "oos" THEN Res("oos", x)
            ELSE IF r.st = "err" \/ Len(r.vals) = 0 \/ ~IsStr(r.vals[1]) THEN Continue(ErrOut(x, r.log))
            ELSE LET name == r.vals[1].s
-                    x1 == [x EXCEPT !.fcalls = @ \o r.log] IN
+                    x1 == SLog(x, r.log) IN
                 IF name = "stop" THEN Res("stop", x1)
                 ELSE IF name \notin DOMAIN p.cmds THEN Continue(ErrOut(x1, <<>>))
                 ELSE LET x2 == [x1 EXCEPT !.ccalls = Append(@, [name |-> name, args |-> SubSeq(r.vals, 2, Len(r.vals))])]
@@ -104,7 +109,7 @@ SemBody(p, b, pc, x) ==
            LET r == Eval(stmt.e, env) IN
            IF r.st = "oos" THEN Res("oos", x)
            ELSE IF r.st = "err" THEN Continue(ErrOut(x, r.log))
-           ELSE Continue([x EXCEPT !.fcalls = @ \o r.log])
+           ELSE Continue(SLog(x, r.log))
 
 RECURSIVE SemNode(_, _, _, _)
 SemNode(p, title, x, fuel) ==
